@@ -86,6 +86,8 @@ type Contract struct {
 }
 
 type ContractSet struct {
+	AtomicOnly   []string    // pkgDir|T.f : only sync/atomic may touch the field
+	Guarded      [][3]string // pkgDir, T.f, T.lock : every access needs the lock held
 	TypeInvQ     []*Clause
 	Macros       map[string]string
 	Constructors [][2]string          // type name, function (RelString) allowed to store to its stable fields
@@ -174,6 +176,15 @@ func parseContractFile(cs *ContractSet, path, pkgDir string) {
 			c.Owner = &Contract{PkgDir: pkgDir, PkgName: pkgName, Func: "axiom", File: path}
 			cs.Axioms = append(cs.Axioms, c)
 			cs.Scan = append(cs.Scan, fmt.Sprintf("axiom %s (%s:%d)", c.Text, filepath.Base(path), ln+1))
+		case strings.HasPrefix(l, "atomiconly "):
+			for _, f := range strings.Fields(strings.TrimPrefix(l, "atomiconly ")) {
+				cs.AtomicOnly = append(cs.AtomicOnly, pkgDir+"|"+f)
+			}
+		case strings.HasPrefix(l, "guarded "):
+			f := strings.Fields(strings.TrimPrefix(l, "guarded "))
+			if len(f) == 2 {
+				cs.Guarded = append(cs.Guarded, [3]string{pkgDir, f[0], f[1]})
+			}
 		case strings.HasPrefix(l, "define "):
 			rest := strings.TrimPrefix(l, "define ")
 			if eq := strings.Index(rest, "="); eq > 0 {
@@ -488,6 +499,8 @@ var sameSliceRe = regexp.MustCompile(`\bsameslice\(`)
 var sameRe = regexp.MustCompile(`\bsame\(`)
 var sliceOffRe = regexp.MustCompile(`\bsliceoff\(`)
 var sameArrRe = regexp.MustCompile(`\bsamearray\(`)
+var newArrRe = regexp.MustCompile(`\bnewarray\(`)
+var lastLoadRe = regexp.MustCompile(`\blastload\(`)
 
 // normalizeClause hoists forall binders and rewrites ==> and old().
 var macroRe = regexp.MustCompile(`@([A-Za-z_][A-Za-z0-9_]*)`)
@@ -539,6 +552,8 @@ func normalizeClause(c *Clause) error {
 	t = sameRe.ReplaceAllString(t, "__vc_same(")
 	t = sliceOffRe.ReplaceAllString(t, "__vc_sliceoff(")
 	t = sameArrRe.ReplaceAllString(t, "__vc_samearray(")
+	t = newArrRe.ReplaceAllString(t, "__vc_newarray(")
+	t = lastLoadRe.ReplaceAllString(t, "__vc_lastload(")
 	c.Expr = t
 	return nil
 }
@@ -845,6 +860,10 @@ func (cs *ContractSet) genOverlay(sp *srcPkg, contracts []*Contract, axioms []*C
 	out.WriteString("func __vc_same[T any](a, b T) bool { return any(a) == any(b) }\n\n")
 	out.WriteString("// __vc_sliceoff: index of sub's first element within whole's backing array, relative to whole's first element\n")
 	out.WriteString("func __vc_sliceoff[T any](sub, whole []T) int { return cap(whole) - cap(sub) }\n\n")
+	out.WriteString("// __vc_lastload: ghost - the most recent event on this path is an atomic load of *p\n")
+	out.WriteString("func __vc_lastload[T any](p *T) bool { return true }\n\n")
+	out.WriteString("// __vc_newarray: the slice's backing array was allocated during the call (not meaningful at run time)\n")
+	out.WriteString("func __vc_newarray[T any](a []T) bool { return true }\n\n")
 	out.WriteString("// __vc_samearray: the two slices share one backing array (approximated at run time by overlapping capacity ends)\n")
 	out.WriteString("func __vc_samearray[T any](a, b []T) bool { return cap(a) > 0 && cap(b) > 0 && &a[:cap(a)][cap(a)-1] == &b[:cap(b)][cap(b)-1] }\n\n")
 	out.WriteString("func __vc_sameslice[T any](a, b []T) bool { return len(a) == len(b) && cap(a) == cap(b) && (cap(a) == 0 || &a[:1][0] == &b[:1][0]) }\n\n")
